@@ -43,8 +43,30 @@ func newSimWorld(sc *Scenario) *simWorld {
 	// the scenario's in-memory keeper configuration
 	k := app.ServiceKeeper
 	for _, m := range sc.Rig.CallbackModules {
-		_ = k.RegisterResponseCallback(m, func(ctx sdk.Context, id tmbytes.HexBytes, outs []string, err error) {})
-		_ = k.RegisterStateCallback(m, func(ctx sdk.Context, id tmbytes.HexBytes, cause string) {})
+		mod := m
+		_ = k.RegisterResponseCallback(m, func(ctx sdk.Context, id tmbytes.HexBytes, outs []string, err error) {
+			if sc.Rig.Reentrant && err != nil {
+				var others [][]byte
+				var consumers []sdk.AccAddress
+				k.IterateRequestContexts(ctx, func(oid tmbytes.HexBytes, oc st.RequestContext) bool {
+					if oc.ModuleName == mod && !bytes.Equal(oid, id) {
+						others = append(others, append([]byte{}, oid...))
+						consumers = append(consumers, oc.Consumer)
+					}
+					return false
+				})
+				for i := range others {
+					_ = k.KillRequestContext(ctx, others[i], consumers[i])
+				}
+			}
+		})
+		_ = k.RegisterStateCallback(m, func(ctx sdk.Context, id tmbytes.HexBytes, cause string) {
+			if sc.Rig.Reentrant {
+				if rc, ok := k.GetRequestContext(ctx, id); ok {
+					_ = k.KillRequestContext(ctx, id, rc.Consumer)
+				}
+			}
+		})
 	}
 	for _, m := range sc.Rig.ResponseOnlyModules {
 		_ = k.RegisterResponseCallback(m, func(ctx sdk.Context, id tmbytes.HexBytes, outs []string, err error) {})
